@@ -23,10 +23,23 @@ clause → theorem
 * inline transports answer in arrival order ....................... `C03.inline_order`
 * same response on every transport, byte for byte ................. `C03.transports_agree`, `C03.wire_is_toVec`
 
-Handlers are parameters (`HOut`): the theorems hold for every handler behaviour. `transports_agree`
+* the source's per-request behaviour / connection loop are the modelled ones .. `C03.serve_facts`, `C03.respond_is_source`, `C03.serve_loop_is_source`
+* notify: run once, answered never, on every path (also off the reader) ....... `C03.notify_invoked_once_unanswered`
+* unacceptable body format ⇒ InvalidBody, per built-in handler kind ........... `C03.decode_facts`, `C03.unacceptable_format_code`
+* undecodable body ⇒ ParseError (InvalidBody at a registry mount) ............. `C03.undecodable_body_code`
+* decodable body ⇒ the closure's result ........................................ `C03.decoded_reports_closure`, `C03.builtin_response_code`
+* owned / borrowing decoder twins follow one rule; built-ins meet `Twin` ....... `C03.decode_twins`, `C03.builtin_twin`
+* same response on every transport, wrapped or bare, blocking or not,
+  for every built-in handler kind — no twin hypothesis ........................ `C03.transports_agree_builtin`, `C03.entry_facts`
+* responses queued when a WebSocket reader ends are still delivered ........... `C03.teardown_delivers_queued`
+
+Handlers are parameters (`HOut`): the general theorems hold for every handler behaviour; `transports_agree`
 needs the handler-twin contract `Twin` (the owned and the borrowed entry point of a handler return
-the same response up to the query stamp), which C07's twin differential exercises for every
-built-in handler kind. Handler panics are C16.
+the same response up to the query stamp). For the built-in handler kinds (`with_json*`, `with_typed*`,
+`with_typed_slice*`, `with_handler`, registry and struct mounts) the contract is *proved* (`builtin_twin`) from
+the decode sites' facts re-extracted from `server.rs` / `registry.rs`; what stays a parameter there is whether
+serde_json / beve decode the bytes (`decodable`) and what the registered closure returns (`Closure`).
+Custom erased handlers remain `HOut` parameters. Handler panics are C16.
 -/
 namespace Repe.C03
 
@@ -44,7 +57,8 @@ theorem source_facts :
     Gen.codes = specCodes ∧ Gen.routeOrder = specRouteOrder ∧
     Gen.routeVersionCode = specCodes.versionMismatch ∧ Gen.routeUtf8Code = specCodes.invalidQuery ∧
     Gen.routeRawBinaryCode = specCodes.invalidQuery ∧ Gen.routeLookupCode = specCodes.methodNotFound ∧
-    Gen.notifyValue = 1 ∧ Gen.unknownQueryFormatIsRawBinary = true := by decide
+    Gen.notifyValue = 1 ∧ Gen.unknownQueryFormatIsRawBinary = true ∧ Gen.versionTestIsNe = true ∧
+    Gen.routeRejectSites = 4 ∧ Gen.routeDispatchSites = 1 := by decide
 
 /-- unacceptable body format ⇒ InvalidBody; undecodable body (JSON/BEVE/IO) ⇒ ParseError; … -/
 theorem error_code_table : Gen.toErrorCode = specToErrorCode := by decide
@@ -246,5 +260,183 @@ theorem wire_is_toVec (resp : Message) (q : Bytes) (cap : Nat) :
 example : Twin ⟨⟨48+2, 0x1507, 1, 0, 0, 7, 2, 0, 1, 2, 0⟩, [47, 97], []⟩
     (.ok (Builder.mk 7 false 0 1 2 [] [49]).build) (.ok (Builder.mk 7 false 0 1 2 [] [49]).build) := by
   refine ⟨?_, ?_, rfl⟩ <;> exact Builder.build_wf _ (by decide) (by decide) (by decide) (by decide) (by decide)
+
+/-! ## The built-in handlers, the serve loops and the middleware wrapper, from extracted facts -/
+
+/-- The body-decoding rule of each built-in handler kind, as documented: JSON / typed / context / adapter handlers take
+BEVE, JSON and UTF-8-framed JSON; the bulk slice handlers take BEVE only; a registry mount takes every known format; a
+struct mount takes BEVE / JSON / UTF-8; registry and struct mounts read "no body" as a read. Any other format is
+InvalidBody. Undecodable bytes are ParseError, except at a registry mount (InvalidBody, `RegistryError::code`). -/
+def specDecode : HKind → DecodeFacts
+  | .json | .jsonCtx | .typed | .typedCtx | .adapter => ⟨[1, 2, 3], 4, 5, true, false, true⟩
+  | .slice | .sliceRef => ⟨[1], 4, 5, true, false, true⟩
+  | .registry => ⟨[0, 1, 2, 3], 4, 4, false, true, true⟩
+  | .struct => ⟨[1, 2, 3], 4, 5, true, true, true⟩
+
+/-- Every decode site of `server.rs` / `registry.rs`, owned and borrowing twin alike, is the documented rule
+(re-extracted on every run; an unrecognised decode expression is `strict := false`, a wrong code is that code). -/
+theorem decode_facts : ∀ k e, Gen.decodeFacts k e = specDecode k := by
+  intro k e; cases k <;> cases e <;> decide
+
+/-- The owned and the borrowing decoder of every kind follow the same rule. -/
+theorem decode_twins (k : HKind) : Gen.decodeFacts k .view = Gen.decodeFacts k .owned := by
+  rw [decode_facts, decode_facts]
+
+/-- Who overrides `handle_view`: the four plain value handlers; neither wrapper does; the pipeline forwards
+`execution()`. -/
+theorem entry_facts : Gen.entryFacts = ⟨[.json, .typed, .slice, .sliceRef], false, false, true⟩ := by decide
+
+/-- The notify branches, handler call sites, echo arguments, stamps, flushes, sends and the teardown of the four
+serve loops have the recognised forms. -/
+theorem serve_facts : Gen.serveFacts = specServe := by decide
+
+/-- The per-request behaviour read off the current source is the modelled `respond`: every theorem above is about it. -/
+theorem respond_is_source :
+    respondG Gen.serveFacts Gen.codes t req utf8 found hview howned rejMsg =
+      respond Gen.codes t req utf8 found hview howned rejMsg := by
+  rw [serve_facts]; exact respondG_spec _ _ _ _ _ _ _ _
+
+/-- Side conditions that hold of every Rust value (field widths, lengths below 2^64). -/
+structure Sane (req : Req) (cl : Closure) (txt : Bytes) : Prop where
+  id : req.header.id < 2^64
+  txt : 48 + req.query.length + txt.length < 2^64
+  cl : match cl with
+    | .ok bf b => bf < 2^16 ∧ 48 + b.length < 2^64
+    | .err c m => c < 2^32 ∧ 48 + req.query.length + m.length < 2^64
+
+/-- Built-in handlers meet the twin contract: whichever rule both entry points share, the borrowed entry point's
+outcome and the owned one's are the same response once the dispatch layer has echoed the query. -/
+theorem builtin_twin (e : Entry) (f : DecodeFacts) (hf : f.rejectCode < 2^32 ∧ f.failCode < 2^32) (decodable : Bool) (cl : Closure)
+    (txt : Bytes) (hs : Sane req cl txt) :
+    Twin req (builtinHandle f e req decodable cl txt) (builtinHandle f .owned req decodable cl txt) := by
+  have herr : ∀ c m, c < 2^32 → 48 + req.query.length + m.length < 2^64 →
+      Twin req (.ok (errorFor e req c m)) (.ok (errorFor .owned req c m)) := by
+    intro c m hc hm
+    cases e
+    · exact ⟨errorLike_wf req c m hs.id hc hm, errorLike_wf req c m hs.id hc hm, rfl⟩
+    · exact ⟨errorUnstamped_wf req c m hs.id hc (by omega), errorLike_wf req c m hs.id hc hm,
+        (errorLike_eq_stamped req c m).symm⟩
+  unfold builtinHandle
+  cases hd : decodeDecision f req.header.bodyFormat req.body.isEmpty decodable with
+  | reject c' =>
+    obtain ⟨hc, _⟩ := decodeDecision_reject hd
+    exact herr c' txt (by rw [hc]; exact hf.1) hs.txt
+  | fail c' b =>
+    obtain ⟨hc, _, _⟩ := decodeDecision_fail hd
+    have hc' : c' < 2^32 := by rw [hc]; exact hf.2
+    cases b
+    · exact herr c' txt hc' hs.txt
+    · exact ⟨rfl, rfl, hc', by have := hs.txt; omega⟩
+  | value =>
+    cases cl with
+    | ok bf b =>
+      have h := hs.cl
+      exact ⟨builtinResponse_wf req bf b hs.id h.1 h.2, builtinResponse_wf req bf b hs.id h.1 h.2, rfl⟩
+    | err c m =>
+      have h := hs.cl
+      exact herr c m h.1 h.2
+
+/-- Non-vacuity of `Sane` / `builtin_twin`: a JSON handler answering `1` to `/a`, id 7. -/
+example : Sane ⟨⟨48+2, 0x1507, 1, 0, 0, 7, 2, 0, 1, 2, 0⟩, [47, 97], []⟩ (.ok 2 [49]) [] :=
+  ⟨by decide, by decide, by decide⟩
+
+/-- A request to a built-in handler of any kind yields the same response on all four dispatch paths, whether or
+not middleware wraps the route and whether or not it was registered with a `_blocking` constructor — with no
+twin hypothesis: the owned and the borrowing decoder are the same rule by `decode_twins`. -/
+theorem transports_agree_builtin (k : HKind) (t₁ t₂ : Transport) (w₁ w₂ b₁ b₂ decodable : Bool) (cl : Closure)
+    (txt : Bytes) (hs : Sane req cl txt) :
+    (builtinRespond Gen.serveFacts Gen.codes Gen.decodeFacts Gen.entryFacts t₁ req utf8 found k w₁ b₁ decodable cl txt).1 =
+    (builtinRespond Gen.serveFacts Gen.codes Gen.decodeFacts Gen.entryFacts t₂ req utf8 found k w₂ b₂ decodable cl txt).1 := by
+  have hf : (specDecode k).rejectCode < 2^32 ∧ (specDecode k).failCode < 2^32 := by cases k <;> decide
+  have key : ∀ t e, (respond Gen.codes t req utf8 found (builtinHandle (specDecode k) e req decodable cl txt)
+        (builtinHandle (specDecode k) .owned req decodable cl txt) []).1 =
+      (respond Gen.codes .wsOff req utf8 found (builtinHandle (specDecode k) .owned req decodable cl txt)
+        (builtinHandle (specDecode k) .owned req decodable cl txt) []).1 := by
+    intro t e
+    rw [transports_agree req utf8 found _ _ [] t .wsOff (builtin_twin req e (specDecode k) hf decodable cl txt hs) hs.id
+      (by decide)]
+    rw [respond_wsOff_hview]
+  unfold builtinRespond
+  simp only [respond_is_source, decode_facts]
+  exact (key _ _).trans (key _ _).symm
+
+/-- The response to a dispatched, non-notify request to a built-in handler carries the request's id and query and
+the error code `builtinEc` of the documented decoding rule — on every transport, wrapped or not, blocking or not. -/
+theorem builtin_response_code (k : HKind) (w b decodable : Bool) (cl : Closure) (txt : Bytes)
+    (hr : route Gen.codes req utf8 found = .dispatch) (hn : req.isNotify = false) :
+    ∃ m, (builtinRespond Gen.serveFacts Gen.codes Gen.decodeFacts Gen.entryFacts t req utf8 found k w b decodable cl txt).1
+        = some m ∧
+      m.header.ec = builtinEc (specDecode k) req.header.bodyFormat req.body.isEmpty decodable cl ∧
+      m.header.id = req.header.id ∧ m.query = req.query := by
+  unfold builtinRespond
+  simp only [respond_is_source, decode_facts]
+  rw [respond_dispatch _ _ _ _ _ _ _ _ hr hn]
+  refine ⟨_, rfl, ?_, ?_, ?_⟩
+  · rw [finalMessage_ec]; cases t <;> exact builtin_out_ec _ _ _ _ _ _ _
+  · rw [finalMessage_id]; cases t <;> exact builtin_out_id _ _ _ _ _ _ _
+  · rw [finalMessage_query]
+    have h : ∀ m : Message, (m.query = [] ∨ m.query = req.query) →
+        (if m.query.isEmpty then req.query else m.query) = req.query := by
+      intro m hm
+      rcases hm with h | h
+      · simp [h]
+      · rw [h]; split <;> rfl
+    cases t <;> exact h _ (builtin_out_query _ _ _ _ _ _ _)
+
+/-- An unacceptable body format is answered with InvalidBody by every built-in handler kind. -/
+theorem unacceptable_format_code (k : HKind) (fmt : Nat) (bodyEmpty decodable : Bool) (cl : Closure)
+    (hfmt : fmt ∉ (specDecode k).accepts) (hne : ((specDecode k).emptySkips && bodyEmpty) = false) :
+    builtinEc (specDecode k) fmt bodyEmpty decodable cl = specCodes.invalidBody := by
+  unfold builtinEc decodeDecision
+  simp only [hne, hfmt]
+  cases k <;> rfl
+
+/-- An undecodable body in an accepted format is answered with ParseError — InvalidBody at a registry mount. -/
+theorem undecodable_body_code (k : HKind) (fmt : Nat) (bodyEmpty : Bool) (cl : Closure)
+    (hfmt : fmt ∈ (specDecode k).accepts) (hne : ((specDecode k).emptySkips && bodyEmpty) = false) :
+    builtinEc (specDecode k) fmt bodyEmpty false cl =
+      if k = .registry then specCodes.invalidBody else specCodes.parseError := by
+  unfold builtinEc decodeDecision
+  simp only [hne, hfmt]
+  cases k <;> rfl
+
+/-- A decodable body in an accepted format (or no body at a registry / struct mount) reports the closure's result. -/
+theorem decoded_reports_closure (k : HKind) (fmt : Nat) (bodyEmpty : Bool) (cl : Closure)
+    (h : fmt ∈ (specDecode k).accepts ∨ ((specDecode k).emptySkips && bodyEmpty) = true) :
+    builtinEc (specDecode k) fmt bodyEmpty true cl = match cl with | .ok _ _ => 0 | .err c _ => c := by
+  have hd : decodeDecision (specDecode k) fmt bodyEmpty true = .value := by
+    unfold decodeDecision
+    rcases h with h | h
+    · by_cases hs : ((specDecode k).emptySkips && bodyEmpty) = true <;> simp [hs, h]
+    · simp [h]
+  unfold builtinEc
+  rw [hd]
+  cases cl <;> rfl
+
+/-- Non-vacuity: BEVE-framed bytes to a JSON handler are accepted; a raw-binary frame is not; a registry mount
+accepts raw binary. -/
+example : (1 ∈ (specDecode .json).accepts) ∧ (0 ∉ (specDecode .json).accepts) ∧ (0 ∈ (specDecode .registry).accepts) := by
+  decide
+
+/-- The connection loop read off the source (flush after every response, in-order sends) is the modelled loop, hence
+`inline_order` is about it. -/
+theorem serve_loop_is_source (steps : List Step) :
+    serveSeqG Gen.serveFacts Gen.codes t steps = serveSeq Gen.codes t steps [] 0 := by
+  rw [serve_facts]
+  unfold serveSeqG
+  cases t <;> simp [specServe]
+
+/-- WebSocket teardown: every response already queued when the reader ends (cleanly or with an error) is delivered. -/
+theorem teardown_delivers_queued (queued : List Message) : teardownDelivered Gen.serveFacts queued = queued := by
+  rw [serve_facts]; rfl
+
+/-- A dispatched notify is run exactly once on every path — also off the reader, whatever happens to the connection
+in the meantime — and answered on none. -/
+theorem notify_invoked_once_unanswered (hr : route Gen.codes req utf8 found = .dispatch) (hn : req.isNotify = true) :
+    respondG Gen.serveFacts Gen.codes t req utf8 found hview howned rejMsg = (none, 1) := by
+  rw [respond_is_source]
+  unfold respond
+  rw [hr]
+  simp [hn]
 
 end Repe.C03
